@@ -776,11 +776,11 @@ func c19NoRowEdge(errv, okv ssa.Value, bT bool) func(pred, succ *ssa.BasicBlock)
 		}
 		taken := pred.Succs[0] == succ
 		for _, cm := range trueCmps(fact{iff.Cond, taken}) {
+			if c19EOFCmp(cm, errv) {
+				return true
+			}
 			if cm.Y == nil {
 				if okv != nil && sameValue(cm.X, okv) && (cm.Op == token.EQL) != bT {
-					return true
-				}
-				if ic, isCall := cm.X.(*ssa.Call); isCall && cm.Op == token.EQL && errv != nil && calleeName(&ic.Call) == "errors.Is" && phiIncludes(ic.Call.Args[0], errv) && isGlobalNamed(ic.Call.Args[1], "io", "EOF") {
 					return true
 				}
 				continue
@@ -789,19 +789,166 @@ func c19NoRowEdge(errv, okv ssa.Value, bT bool) func(pred, succ *ssa.BasicBlock)
 				continue
 			}
 			for _, p := range [][2]ssa.Value{{cm.X, cm.Y}, {cm.Y, cm.X}} {
-				if !phiIncludes(p[0], errv) {
-					continue
-				}
-				if cm.Op == token.NEQ && isNilConst(p[1]) {
-					return true
-				}
-				if cm.Op == token.EQL && isGlobalNamed(p[1], "io", "EOF") {
+				if phiIncludes(p[0], errv) && cm.Op == token.NEQ && isNilConst(p[1]) {
 					return true
 				}
 			}
 		}
 		return false
 	}
+}
+
+// c19EOFCmp: the comparison cm, known to be true, says that the error errv (itself, or a phi that carries it) is the
+// end-of-input marker: `errv == io.EOF` or `errors.Is(errv, io.EOF)`. Because it is applied to the comparisons that hold
+// on an edge (trueCmps), every spelling of the test is covered: `err != io.EOF` / `!errors.Is(…)` on the else edge, the
+// test before the nil test or nested inside `if err != nil { … }`, a `switch err { case io.EOF: … }`.
+func c19EOFCmp(cm cmp, errv ssa.Value) bool {
+	if errv == nil {
+		return false
+	}
+	if cm.Y == nil {
+		ic, isCall := cm.X.(*ssa.Call)
+		return isCall && cm.Op == token.EQL && calleeName(&ic.Call) == "errors.Is" && len(ic.Call.Args) == 2 &&
+			phiIncludes(ic.Call.Args[0], errv) && isGlobalNamed(ic.Call.Args[1], "io", "EOF")
+	}
+	if cm.Op != token.EQL {
+		return false
+	}
+	return (phiIncludes(cm.X, errv) && isGlobalNamed(cm.Y, "io", "EOF")) || (phiIncludes(cm.Y, errv) && isGlobalNamed(cm.X, "io", "EOF"))
+}
+
+// c19EOFEdge: the CFG edges on which errv is known to be io.EOF (see c19EOFCmp).
+func c19EOFEdge(errv ssa.Value) func(pred, succ *ssa.BasicBlock) bool {
+	return func(pred, succ *ssa.BasicBlock) bool {
+		iff, ok := pred.Instrs[len(pred.Instrs)-1].(*ssa.If)
+		if !ok || len(pred.Succs) != 2 || pred.Succs[0] == pred.Succs[1] {
+			return false
+		}
+		for _, cm := range trueCmps(fact{iff.Cond, pred.Succs[0] == succ}) {
+			if c19EOFCmp(cm, errv) {
+				return true
+			}
+		}
+		return false
+	}
+}
+
+// c19EndOfInput decides, for a helper f of the command whose last result is an error, whether io.EOF in that result means
+// what it means for csv.Reader.Read — the input is exhausted, nothing failed — so that the caller may leave its read loop
+// on it without failing (C19.errexit's one exception). That is the case when
+//
+//   - f hands the reader's error on: some return's error is (a phi carrying) the error result of a csv Read in f, or of a
+//     helper of the command for which the same holds (depth levels down), either as it is or wrapped by fmt.Errorf; and
+//   - f does not *make up* an end of input: wherever f itself writes io.EOF (returns it, assigns it), a read's error is
+//     known to be io.EOF at that point (`if err == io.EOF { return nil, io.EOF }`); io.EOF may otherwise only be compared
+//     with. A helper that turns a failure into io.EOF (`if err != nil { return nil, io.EOF }`) is therefore not granted
+//     the exception, and the caller's `break` on io.EOF is reported as the swallowed failure it is.
+//
+// Errors f produces in other ways (fmt.Errorf, errors.New, results of AddRow/Flush/Open) are not io.EOF (trusted: none of
+// these APIs reports io.EOF), so the EOF edge of the caller is dead for them and the exception cannot hide them.
+func c19EndOfInput(c *Ctx, f *ssa.Function, inScope func(*ssa.Function) bool, depth int) bool {
+	if f == nil || len(f.Blocks) == 0 {
+		return false
+	}
+	res := f.Signature.Results()
+	if res.Len() == 0 || !isErrorType(res.At(res.Len()-1).Type()) {
+		return false
+	}
+	// the end-of-input capable errors inside f
+	var readErrs []ssa.Value
+	allInstrs(f, func(i ssa.Instruction) {
+		call, ok := i.(*ssa.Call)
+		if !ok {
+			return
+		}
+		src := calleeName(&call.Call) == "(*encoding/csv.Reader).Read"
+		if g := calleeFunc(&call.Call); !src && g != nil && g != f && depth > 0 && inScope(g) {
+			src = c19EndOfInput(c, g, inScope, depth-1)
+		}
+		if src {
+			if ev := resultValue(call, call.Call.Signature().Results().Len()-1); ev != nil {
+				readErrs = append(readErrs, ev)
+			}
+		}
+	})
+	if len(readErrs) == 0 {
+		return false
+	}
+	isReadErr := func(v ssa.Value) bool {
+		for _, e := range readErrs {
+			if phiIncludes(v, e) {
+				return true
+			}
+		}
+		return false
+	}
+	knownEOF := func(at ssa.Instruction) bool {
+		for _, cm := range cmpsAt(at) {
+			for _, e := range readErrs {
+				if c19EOFCmp(cm, e) {
+					return true
+				}
+			}
+		}
+		return false
+	}
+	// io.EOF is only compared with, or written where a read reported it
+	madeUp := false
+	allInstrs(f, func(i ssa.Instruction) {
+		ld, ok := i.(*ssa.UnOp)
+		if !ok || !isGlobalNamed(ld, "io", "EOF") {
+			return
+		}
+		for _, u := range referrers(ld) {
+			switch x := u.(type) {
+			case *ssa.DebugRef:
+			case *ssa.BinOp:
+				if x.Op != token.EQL && x.Op != token.NEQ {
+					madeUp = true
+				}
+			case *ssa.Call:
+				if calleeName(&x.Call) != "errors.Is" || len(x.Call.Args) != 2 || x.Call.Args[0] == ssa.Value(ld) {
+					madeUp = true
+				}
+			case *ssa.Return, *ssa.Store:
+				if !knownEOF(u) {
+					madeUp = true
+				}
+			default:
+				madeUp = true
+			}
+		}
+	})
+	if madeUp {
+		return false
+	}
+	handsOn := false
+	allInstrs(f, func(i ssa.Instruction) {
+		ret, ok := i.(*ssa.Return)
+		if !ok || isRecoverBlockReturn(ret) || len(ret.Results) != res.Len() {
+			return
+		}
+		ev := retVals(ret)[res.Len()-1]
+		switch {
+		case isReadErr(ev):
+			handsOn = true
+		case isGlobalNamed(ev, "io", "EOF"):
+			handsOn = true // known to stand for a read's io.EOF (checked above)
+		default:
+			if call, isCall := ev.(*ssa.Call); isCall && calleeName(&call.Call) == "fmt.Errorf" && len(call.Call.Args) == 2 {
+				if al := sliceOfArray(call.Call.Args[1]); al != nil {
+					if elems, _, ok := arrayElems(al); ok {
+						for _, el := range elems {
+							if isReadErr(peel(el)) {
+								handsOn = true
+							}
+						}
+					}
+				}
+			}
+		}
+	})
+	return handsOn
 }
 
 // c19KnownNil: v == nil is a dominating fact at `at`.
@@ -1206,24 +1353,13 @@ func c19ErrExit(c *Ctx) {
 			sig := call.Call.Signature().Results()
 			ev := resultValue(call, sig.Len()-1)
 			var cut func(pred, succ *ssa.BasicBlock) bool
-			if what == "csv Read" {
-				// io.EOF ends the input: the branch where errors.Is(err, io.EOF) / err == io.EOF holds is not a swallowed error
-				cut = func(pred, succ *ssa.BasicBlock) bool {
-					iff, ok := pred.Instrs[len(pred.Instrs)-1].(*ssa.If)
-					if !ok || pred.Succs[0] != succ {
-						return false
-					}
-					cond := iff.Cond
-					if ic, ok := cond.(*ssa.Call); ok && calleeName(&ic.Call) == "errors.Is" && ic.Call.Args[0] == ev && isGlobalNamed(ic.Call.Args[1], "io", "EOF") {
-						return true
-					}
-					if b, ok := cond.(*ssa.BinOp); ok && b.Op == token.EQL {
-						if (b.X == ev && isGlobalNamed(b.Y, "io", "EOF")) || (b.Y == ev && isGlobalNamed(b.X, "io", "EOF")) {
-							return true
-						}
-					}
-					return false
-				}
+			if f := calleeFunc(&call.Call); what == "csv Read" || (f != nil && f != fn && inScope(f) && c19EndOfInput(c, f, inScope, 2)) {
+				// io.EOF ends the input: the edge on which errors.Is(err, io.EOF) / err == io.EOF holds is not a swallowed
+				// error. This holds for the csv reader's own Read and for a helper of the command that hands the reader's
+				// error on (a `rowReader.Next()` around Read), but not for a helper that turns failures into io.EOF
+				// (c19EndOfInput); the edge is recognised in every form of the test (c19EOFCmp), also nested inside the
+				// `err != nil` branch.
+				cut = c19EOFEdge(ev)
 			}
 			key := fmt.Sprintf("%s: %s#%d", name, what, n)
 			out := c.fc.errPropagatedExcept(fn, call, ev, cut)
